@@ -65,6 +65,7 @@ class _CallTimeout(BaseException):
 
 
 _alarm_fired = [False]
+_depth = [0]
 
 
 def _on_alarm(signum, frame):
@@ -78,20 +79,28 @@ SUT_TIMEOUT_S = float(os.environ.get("VERIF_SUT_TIMEOUT", "120"))
 def sut(fn, *args, allowed=(), **kwargs):
     """Call the code under test; its exceptions are violations unless `allowed`.
 
-    A single call that runs longer than SUT_TIMEOUT_S (a hang, or an ODE solver crawling
-    with microscopic steps) is abandoned and the case counted as skipped ("timeout"): a
-    time limit is never a correctness signal.
+    A single call that uses more than SUT_TIMEOUT_S of CPU time (an ODE solver crawling with
+    microscopic steps), or 10x that in wall-clock time (a hang), is abandoned and the case
+    counted as skipped ("timeout"): a time limit is never a correctness signal.  CPU time is
+    the primary limit so that the outcome does not depend on how loaded the machine is.
     """
     import signal
     import threading
 
-    use_alarm = threading.current_thread() is threading.main_thread() and SUT_TIMEOUT_S > 0
+    use_alarm = threading.current_thread() is threading.main_thread() and SUT_TIMEOUT_S > 0 and _depth[0] == 0
+    _depth[0] += 1
     if use_alarm:
         _alarm_fired[0] = False
         old_handler = signal.signal(signal.SIGALRM, _on_alarm)
-        signal.setitimer(signal.ITIMER_REAL, SUT_TIMEOUT_S)
+        old_prof = signal.signal(signal.SIGPROF, _on_alarm)
+        signal.setitimer(signal.ITIMER_PROF, SUT_TIMEOUT_S)
+        signal.setitimer(signal.ITIMER_REAL, 10 * SUT_TIMEOUT_S)
     try:
-        return fn(*args, **kwargs)
+        out = fn(*args, **kwargs)
+        if use_alarm and _alarm_fired[0]:
+            # the interruption was swallowed somewhere below: the result is not to be trusted
+            raise _CallTimeout()
+        return out
     except _CallTimeout:
         name = getattr(fn, "__name__", None) or getattr(getattr(fn, "func", None), "__name__", "call")
         raise Skip(f"timeout: {name} exceeded {SUT_TIMEOUT_S:.0f}s") from None
@@ -102,7 +111,7 @@ def sut(fn, *args, allowed=(), **kwargs):
     except BaseException as e:  # noqa: BLE001
         if isinstance(e, (KeyboardInterrupt, SystemExit, MemoryError)):
             raise
-        if use_alarm and _alarm_fired[0]:
+        if _alarm_fired[0]:
             # the watchdog interrupted compiled code (numba reports that as SystemError, a
             # solver callback may wrap it): still a timeout, never a verdict
             raise Skip(f"timeout: call exceeded {SUT_TIMEOUT_S:.0f}s") from None
@@ -119,9 +128,12 @@ def sut(fn, *args, allowed=(), **kwargs):
             f"{name} raised {type(e).__name__}: {str(e)[:200]}{where}"
         ) from None
     finally:
+        _depth[0] -= 1
         if use_alarm:
+            signal.setitimer(signal.ITIMER_PROF, 0)
             signal.setitimer(signal.ITIMER_REAL, 0)
             signal.signal(signal.SIGALRM, old_handler)
+            signal.signal(signal.SIGPROF, old_prof)
 
 
 def require(cond, msg, residual=None):
@@ -539,8 +551,10 @@ def check_known(prop_id, module):
         if wit:
             wpath = os.path.join(ROOT, wit)
             res, _doc = replay_file(prop_id, module, wpath)
-            still = res[0] == "fail"
-        details.append({"key": key, "witness": wit, "still_fails": still})
+            # only a witness that now passes cleanly lifts the finding; an inconclusive replay
+            # (time limit, input refused) leaves it listed for this run
+            still = res[0] != "ok"
+        details.append({"key": key, "witness": wit, "still_fails": still, "replay": res[0] if wit else None})
         if still:
             active.setdefault(oname, set()).add(cls)
             lines.append(f"KNOWN-FINDING: property={prop_id} {key} {ent['what']}")
